@@ -55,6 +55,23 @@ Proof.
   cbn [snd fst] in *. subst r2. rewrite !request_shape. reflexivity.
 Qed.
 
+(* a reply without an rpc-error of severity 'error' - no rpc-error at all, or warnings of ANY shape (fields missing,
+   empty, padded, unknown severities) - never makes a request raise under RaiseMode.ERRORS: such a lock is granted *)
+Lemma decide_errors_no_error errs c :
+  existsb sev_is_error errs = false -> decide MODE_ERRORS errs c = Return.
+Proof.
+  intros H. unfold decide. destruct errs as [|first rest]; [reflexivity|].
+  destruct (exempt c (e_message first)); [reflexivity|].
+  rewrite H. reflexivity.
+Qed.
+
+Lemma c13_warning_only_lock_granted orc c mode t body hist :
+  existsb sev_is_error (orc hist K_LOCK t) = false ->
+  let lk := mkEv K_LOCK t true false in
+  let tb := fst (exec orc c mode body (hist ++ [lk])) in
+  exists u, fst (exec orc c mode (Locked t body) hist) = [lk] ++ tb ++ [mkEv K_UNLOCK t true u].
+Proof. intros H. apply c13_bracket. now apply decide_errors_no_error. Qed.
+
 (* ---------- the stack discipline of all contexts of a program ---------- *)
 Lemma ctx_run_app a : forall b s,
   ctx_run (a ++ b) s = match ctx_run a s with Some s' => ctx_run b s' | None => None end.
@@ -68,7 +85,7 @@ Qed.
 Lemma c13_lifo orc c mode p : forall hist stack,
   ctx_run (fst (exec orc c mode p hist)) stack = Some stack.
 Proof.
-  induction p as [| e | k t | p IHp q IHq | t body IH | p IHp]; intros hist stack; cbn [exec].
+  induction p as [| e | k t | p IHp q IHq | t body IH | p IHp | k t]; intros hist stack; cbn [exec].
   - reflexivity.
   - reflexivity.
   - rewrite request_shape. reflexivity.
@@ -85,6 +102,7 @@ Proof.
     rewrite ctx_run_app, IH. cbn [ctx_run ev_ctx ev_kind ev_target].
     change (N.eqb K_UNLOCK K_LOCK) with false. cbn iota. now rewrite beq_refl.
   - specialize (IHp hist stack). destruct (exec orc c mode p hist) as [t1 r1]. exact IHp.
+  - reflexivity.
 Qed.
 
 (* exactly one context unlock per accepted context lock, over a whole program *)
@@ -92,7 +110,7 @@ Lemma c13_counts orc c mode p : forall hist,
   accepted_ctx_locks (fst (exec orc c mode p hist)) = ctx_unlocks (fst (exec orc c mode p hist)).
 Proof.
   unfold accepted_ctx_locks, ctx_unlocks.
-  induction p as [| e | k t | p IHp q IHq | t body IH | p IHp]; intros hist; cbn [exec].
+  induction p as [| e | k t | p IHp q IHq | t body IH | p IHp | k t]; intros hist; cbn [exec].
   - reflexivity.
   - reflexivity.
   - rewrite request_shape. reflexivity.
@@ -107,6 +125,7 @@ Proof.
     rewrite request_shape. cbn [fst].
     rewrite !filter_app, !app_length. cbn. lia.
   - specialize (IHp hist). destruct (exec orc c mode p hist) as [t1 r1]. exact IHp.
+  - reflexivity.
 Qed.
 
 (* the result of a program is never an exception that a context's unlock produced while the body was raising:
